@@ -59,9 +59,7 @@ func ParsePattern(p string, domain []string) Pattern {
 		p = p[1:]
 	}
 
-	if !strings.HasSuffix(p, "\\ ") {
-		p = strings.TrimRight(p, " ")
-	}
+	p = trimTrailingSpaces(p)
 
 	if strings.HasSuffix(p, patternDirSep) {
 		res.dirOnly = true
@@ -74,6 +72,34 @@ func ParsePattern(p string, domain []string) Pattern {
 
 	res.pattern = strings.Split(p, patternDirSep)
 	return &res
+}
+
+// trimTrailingSpaces drops trailing spaces that are not escaped, the way
+// trim_trailing_spaces in canonical Git's dir.c does: backslash escapes are
+// scanned from the left, so "a\\ " (an escaped backslash, then a space) loses
+// its space while "a\  " keeps the first, escaped, one.
+func trimTrailingSpaces(p string) string {
+	lastSpace := -1
+	for i := 0; i < len(p); i++ {
+		switch p[i] {
+		case ' ':
+			if lastSpace < 0 {
+				lastSpace = i
+			}
+		case '\\':
+			i++
+			if i >= len(p) {
+				return p
+			}
+			lastSpace = -1
+		default:
+			lastSpace = -1
+		}
+	}
+	if lastSpace >= 0 {
+		return p[:lastSpace]
+	}
+	return p
 }
 
 func (p *pattern) Match(path []string, isDir bool) MatchResult {
